@@ -17,7 +17,7 @@ func init() {
 		}, 10),
 		jsonSinkRule("C08.example", "an example (exampleBuilder): an example that is not JSON is not an instance of any schema", func(pkgRel, fn string) bool {
 			return pkgRel == "notations/jschema" && strings.Contains(fn, "exampleBuilder")
-		}, 4),
+		}, 2),
 		c08jsonValue, c08props, c08nofloat, trimQuoteRule("C08.trimquote"), keyEncoderRule("C08.keyencoder"), c10share("C08.share"), strClassRule("C08.strclass"), enumMemberRule("C08.enummember"), keyTypeRule("C08.keytype"), sepRule("C08.sep", []string{"openapi"}, 4))
 }
 
